@@ -319,6 +319,15 @@ func corrC14(outDir string, seed uint64, tier string, replay string) *report {
 				got = "(untyped " + err.Error() + ")"
 			}
 			obs = "(Some " + got + ")"
+			// a loaded machine can stall any call: a slow rejection is measured again (up to three times) and only the
+			// fastest run counts
+			for again := 0; again < 3 && el > 50*time.Millisecond; again++ {
+				t1 := time.Now()
+				callKey(a)
+				if d := time.Since(t1); d < el {
+					el = d
+				}
+			}
 			if el > 50*time.Millisecond {
 				slow++
 				rep.fail(fmt.Sprintf("scheme tag %d, password of %d bytes, salt %q, numbers %v, options %v/%q/%d", a.tag, len(a.pw), a.salt, a.nums, a.hasOpts, a.prefix, a.optNum), "prompt rejection", el.String(), "rejection is not prompt (something was derived first)")
